@@ -33,6 +33,17 @@ def make_files(ck):
         info = dict(sig=1, hc=1, coh=1, wr=1, m4=int(minor >= 4), np=n, ne=nev, off=las.header.offset_to_point_data if False else int.from_bytes(data[96:100], "little"),
                     rl=las.header.point_format.size)
         out.append((f"valid v1.{minor} fmt{fmt} n={n} evlrs={nev}" + (f" vlr_bytes={vlr_bytes}" if vlr_bytes else ""), data, info))
+    # a compressed file without points (no decompressor is needed to read it): LasZip record + compressed bit
+    for nev in (0,):     # with EVLRs and a non-seekable source the read is refused: the open finding listed under C14
+        ev = [("verif", 1, "e", b"12345")] if nev else None
+        las = fio.make_las(ck.rng, 4, 6, 0, evlrs=ev, vlrs=[("laszip encoded", 22204, "", bytes(34))])
+        buf = io.BytesIO()
+        las.write(buf)
+        data = bytearray(buf.getvalue())
+        data[104] |= 0x80
+        data = bytes(data)
+        info = dict(sig=1, hc=1, coh=1, wr=1, m4=1, np=0, ne=nev, off=int.from_bytes(data[96:100], "little"), rl=las.header.point_format.size)
+        out.append((f"valid compressed v1.4 fmt6 n=0 evlrs={nev}", data, info))
     base = out[1][1]
     binfo = out[1][2]
     out.append(("invalid signature", b"XXXX" + base[4:], dict(binfo, sig=0)))
